@@ -157,6 +157,13 @@ static void drv_step(struct cmd *c)
 		if (!s) answer(c, "refused", 0, 0);
 		else answer(c, "ok", s, q.len + 1);
 	}
+	else if (!strcmp(a, "memrev")) {
+		size_t pre = drv_uint(c, "pre", 0);
+		int r;
+		data = drv_bytes(c, "data", &dl);
+		r = mpt_memrev(data, pre, dl);
+		answer(c, r < 0 ? "refused" : "ok", data, r < 0 ? 0 : dl);
+	}
 	else if (!strcmp(a, "find")) {
 		size_t esz = drv_uint(c, "esz", 1);
 		uint8_t b = (uint8_t) drv_uint(c, "b", 0);
